@@ -2,6 +2,7 @@
 logging, contextlib, collections, datetime, functools).  asyncio lives in aio.py."""
 from __future__ import annotations
 
+from pyvc.values import unmodelled as _unmodelled  # noqa: E402
 import re
 
 import z3
@@ -57,7 +58,7 @@ class StructVal:
             return self.format
         if name in ("pack", "unpack", "unpack_from", "pack_into"):
             return Builtin("Struct." + name, lambda *a, **k: getattr(self, name)(it, *a, **k))
-        raise it.exc("AttributeError", name)
+        raise _unmodelled(self, name)
 
     # -- pack
     def pack(self, it, *vals):
@@ -374,7 +375,7 @@ class LoggerModel:
             return Builtin("logger.isEnabledFor", lambda it2, lvl: it2.path.choose(2, "isEnabledFor") == 0, True)
         if name == "logger":
             return self
-        raise it.exc("AttributeError", name)
+        raise _unmodelled(self, name)
 
 
 def make_logging_module():
@@ -473,7 +474,7 @@ class TimeDelta:
             return (self.us // 1000000) % 86400
         if name == "microseconds":
             return self.us % 1000000
-        raise it.exc("AttributeError", name)
+        raise _unmodelled(self, name)
 
     def py_eq(self, it, o):
         if isinstance(o, TimeDelta):
@@ -494,7 +495,7 @@ class TimeVal:
     def py_getattr(self, it, name):
         if name in ("hour", "minute", "second", "microsecond"):
             return getattr(self, name)
-        raise it.exc("AttributeError", name)
+        raise _unmodelled(self, name)
 
     def py_eq(self, it, o):
         if isinstance(o, TimeVal):
